@@ -659,6 +659,8 @@ impl FeoxStore {
             return Ok(MemoryReservation { usage, amount });
         };
         let mut current = usage.load(Ordering::Relaxed);
+        #[cfg(feoxdb_verif)]
+        crate::verif::yield_point_unguarded("mem.reserve.after_load");
         loop {
             let next = current.checked_add(amount).ok_or(FeoxError::OutOfMemory)?;
             if next > limit {
